@@ -269,6 +269,7 @@ pub fn scenario(mode: &str, cache: usize, prog: &str, cut: (usize, usize), endin
         servers,
         actors,
         opts: Opts::default(),
+        meta: serde_json::Value::Null,
     })
 }
 
@@ -523,6 +524,7 @@ fn midreply_scenarios(thorough: bool) -> Vec<Scenario> {
                     servers,
                     actors: vec![victim, env("env", vec![]), obs],
                     opts: Opts::default(),
+                    meta: serde_json::Value::Null,
                 });
             }
         }
